@@ -295,7 +295,7 @@ func solveAll1(jobs []*job, timeoutS int, cross bool, workers int) {
 	// phase 2a: a short race of all solver configurations
 	var hard2 []*job
 	runPool(hard, max(1, workers/len(solvers)), func(j *job) {
-		r := raceSolvers(j.path, min(4, timeoutS))
+		r := raceSolvers(j.path, min(8, timeoutS))
 		if r.Status == "unsat" || r.Status == "sat" {
 			j.res = r
 			return
